@@ -187,6 +187,8 @@ class Body:
         self.vis = d.get("vis")
         self.derived = d.get("derived", False)
         self.closure_of = d.get("closure_of")
+        self.inl_rets = d.get("inl_rets", [])
+        self._ret_alias = None
         self._succ = None
         self._pred = None
         self._dom = None
@@ -195,6 +197,35 @@ class Body:
         self._uses = None
         self._calls = None
         self._reach = None
+
+    def return_aliases(self):
+        """Locals that stand for the return place because an inlined helper's result is handed on unchanged:
+        {local: 'both'} when the helper call's destination is the return place itself (`return helper(..)` / tail call),
+        {local: 'err'} when the destination is only consumed by `?` (the helper's Err becomes this function's Err)."""
+        if self._ret_alias is None:
+            al = {0: "both"}
+            changed = True
+            n = 0
+            while changed and n < 8:
+                changed = False
+                n += 1
+                for r in self.inl_rets:
+                    if r["local"] in al:
+                        continue
+                    d = r["dest"]
+                    if d["p"]:
+                        continue
+                    if d["l"] in al:
+                        al[r["local"]] = al[d["l"]]
+                        changed = True
+                        continue
+                    uses = [u for u in self.uses(d["l"]) if u[2] != "drop"]
+                    calls = [self.call_at(u[0]) for u in uses if isinstance(u[2], tuple)]
+                    if uses and len(calls) == len(uses) and all(c is not None and c.decl == "std::ops::Try::branch" for c in calls):
+                        al[r["local"]] = "err"
+                        changed = True
+            self._ret_alias = al
+        return self._ret_alias
 
     # ---- basic -------------------------------------------------------------------
     def local_name(self, l):
@@ -682,6 +713,7 @@ PASS_THROUGH = {
     "std::convert::AsRef::as_ref": {"args": [0], "proj": _ident},
     "std::borrow::Borrow::borrow": {"args": [0], "proj": _ident},
     "std::vec::Vec::<T, A>::as_slice": {"args": [0], "proj": _ident},
+    "digest::generic_array::GenericArray::<T, N>::as_slice": {"args": [0], "proj": _ident},
     "std::array::<impl [T; N]>::as_slice": {"args": [0], "proj": _ident},
     "core::array::<impl [T; N]>::as_slice": {"args": [0], "proj": _ident},
     "std::string::String::as_str": {"args": [0], "proj": _ident},
@@ -839,6 +871,34 @@ class Facts:
                     n = {"t": "goto", "target": unwind_to, "line": t.get("line"), "col": t.get("col"), "exp": t.get("exp", [])}
             return n
 
+        def instantiate(cb, fn):
+            """Substitute the call site's concrete generic arguments for the callee's type parameters (in type strings and in
+            the callee descriptors of its own calls) so that e.g. `D::digest` inside `helper::<Sha256>` reads `Sha256::digest`."""
+            names = cb.get("generics") or []
+            gargs = fn.get("gargs") or []
+            if not names or len(names) != len(gargs):
+                return cb
+            sub = {n: g for n, g in zip(names, gargs) if not n.startswith("'") and n != g and re.fullmatch(r"[A-Za-z_]\w*", n)}
+            if not sub:
+                return cb
+            rx = re.compile(r"(?<![\w:])(%s)(?![\w])" % "|".join(re.escape(n) for n in sorted(sub, key=len, reverse=True)))
+
+            def rs(x):
+                return rx.sub(lambda m: sub[m.group(1)], x)
+
+            def walk(x, key=None):
+                if isinstance(x, dict):
+                    return {k: walk(v, k) for k, v in x.items()}
+                if isinstance(x, list):
+                    return [walk(v, key) for v in x]
+                if isinstance(x, str) and key in ("ty", "full", "self_ty", "impl_self", "gargs", "ety"):
+                    return rs(x)
+                return x
+            nb = dict(cb)
+            nb["blocks"] = walk(cb["blocks"])
+            nb["locals"] = walk(cb["locals"])
+            return nb
+
         def process(path):
             if path in done:
                 return done[path]
@@ -849,6 +909,7 @@ class Facts:
             blocks = [dict(b) for b in bd["blocks"]]
             locals_ = list(bd["locals"])
             inl = []
+            inl_rets = list(bd.get("inl_rets", []))
             i = 0
             budget = 40
             while i < len(blocks):
@@ -857,6 +918,7 @@ class Facts:
                     cp = callee_of(t)
                     if cp is not None and candidate(cp) and cp not in stack:
                         cb = process(cp)
+                        cb = instantiate(cb, ((t.get("func") or {}).get("k") or {}).get("fn") or {})
                         if len(cb["blocks"]) <= 400 and len(t.get("args", [])) == cb["argc"]:
                             budget -= 1
                             loff, boff = len(locals_), len(blocks)
@@ -876,11 +938,15 @@ class Facts:
                                 blocks.append({"stmts": ns, "term": nt, "cleanup": cbk.get("cleanup", False)})
                             inl.append(cp)
                             inl += cb.get("inlined", [])
+                            inl_rets.append({"local": loff, "dest": t["dest"], "cont": t.get("target"), "callee": cp})
+                            for r_ in cb.get("inl_rets", []):
+                                inl_rets.append({"local": r_["local"] + loff, "dest": shift(r_["dest"], loff, boff),
+                                                 "cont": (r_["cont"] + boff) if r_.get("cont") is not None else None, "callee": r_.get("callee")})
                             continue    # re-examine block i (now a goto) - moves on next iteration
                 i += 1
             stack.pop()
             if inl:
-                nb = dict(bd, blocks=blocks, locals=locals_, inlined=inl)
+                nb = dict(bd, blocks=blocks, locals=locals_, inlined=inl, inl_rets=inl_rets)
             else:
                 nb = bd
             done[path] = nb
